@@ -8,7 +8,9 @@ proof  : coq/Props/C20.v.  End to end over the real lexer / pump / parser models
 tie    : C  resource sets as Terraform plan JSON -> the real code path terraform.ParseStdin +
             TerraformFetcher + snippet.Fetch + EmbedSnippets (implrun tf); every generated item is parsed with the
             real parser and compared field by field with the input, and byte by byte with the rendering of the
-            extracted model (render_dict / render_acl / render_backend / render_director), whose own parse of the
+            extracted model (render_dict / render_acl / render_backend / render_director; render_rule for header rules
+            set / delete without condition; the content-type statement and the long string of a response object;
+            scoped / include_of of Model/Snippets.v for the order and completeness of snippets), whose own parse of the
             table must return the items; decodeStringEscapes through lexer + parser (implrun unescape) against the
             model on arbitrary literals (valid, truncated and invalid escapes).
          correspondence ONLY (no theorem): header rules (every action x type, ignore_if_set, conditions) compared as
@@ -76,7 +78,7 @@ def corpus_sets():
     return out
 
 
-def fragments(ctx, rs, svc, rep, stats, pending):
+def fragments(ctx, rs, svc, rep, stats, pending, mreq, mchk):
     """header rules, response objects and VCL snippets of one service (no model: the resource is the oracle)"""
     conds = {c["name"]: c["statement"] for c in rs.get("conditions", [])}
     by_scope = {}
@@ -101,6 +103,12 @@ def fragments(ctx, rs, svc, rep, stats, pending):
         others = [r for r in svc["scoped"] if r[1] == "Remote.Header:" + h["name"] and r[0] != T.HEADER_SCOPE[h["type"]]]
         if others:
             ctx.violation("header rule %s also appears in vcl_%s" % (h["name"], others[0][0]), rep)
+        if h["action"] in ("set", "delete") and not h.get(h["type"] + "_condition"):
+            # Model/Rules.v render_rule (C20_header_rule_parses_real): byte for byte
+            ty = {"request": 1, "cache": 2, "response": 3}[h["type"]]
+            mreq.append("rule %d %s %d %s" % (ty, hx(h["destination"]), 1 if h.get("ignore_if_set") else 0,
+                                              "set " + hx(h["source"]) if h["action"] == "set" else "delete"))
+            mchk.append(("rule", h["name"], data, rep, None))
         pending.append((T.header_expected_vcl(h, conds), sproj, "header rule %s (%s%s%s)" % (
             h["name"], key, ", ignore_if_set" if h.get("ignore_if_set") else "", ", condition" if h.get(h["type"] + "_condition") else ""), data, rep))
     # ---- response objects: condition part (recv / fetch) and synthetic part (error)
@@ -126,6 +134,10 @@ def fragments(ctx, rs, svc, rep, stats, pending):
             continue
         _, _, data, sproj, _, extra = hits[0]
         body = ro["content"] if ro["content"] != "" else ro["response"]
+        mreq.append("ctype %s" % hx(ro["content_type"]))
+        mchk.append(("ctype", ro["name"], data, rep, None))
+        mreq.append("longstring %s" % hx(body))
+        mchk.append(("longstring", ro["name"], data, rep, None))
         want = "ro(%d,%d,%s,%s)" % (code, ro["status"], hx(ro["content_type"]), hx(body))
         if sproj != "perr" and extra != want:
             ctx.violation("response object %s: status / content type / body of the generated vcl_error part differ from the resource" % ro["name"],
@@ -141,6 +153,21 @@ def fragments(ctx, rs, svc, rep, stats, pending):
             stats["dynamic_snippets" if x in exp else "dynamic_snippets_left_out"] += 1
     sanitised = [T.sanitize(x["name"]) for x in exp]
     stats["snippet_names_colliding_sanitised"] += len(sanitised) - len(set(sanitised))
+    # Model/Snippets.v (C20_snippets_sorted_stable / _complete / _none_by_name) on the snippets falco fetches, in that order
+    fetched = [x for x in sn if not x.get("dynamic")] + [x for x in sn if x in exp and x.get("dynamic")]
+    enc = ",".join("%s/%s/%d/%s" % (hx(x["name"]), hx(x["type"]), x["priority"], hx(x["content"])) for x in fetched) or "."
+    for ty in T.SNIPPET_TYPES:
+        if ty == "none":
+            got = [(n, d) for n, (d, _, _) in svc["include"].items()]
+            got = [(x["name"], svc["include"].get(x["name"], (None,))[0]) for x in fetched if x["type"] == "none"]
+            gots = ",".join("%s:%s" % (hx(n), hx(d)) if d is not None else "missing" for n, d in got) or "."
+        elif ty == "init":
+            gots = ",".join("%s:%s" % (hx(n), hx(d)) for n in dict.fromkeys(svc["order"]) if not n.startswith("Remote.")
+                            for d, _ in svc["items"][n]) or "."
+        else:
+            gots = ",".join("%s:%s" % (hx(r[1]), hx(r[2])) for r in by_scope.get(ty, []) if not r[1].startswith("Remote.")) or "."
+        mreq.append("snips %s %s" % (hx(ty), enc))
+        mchk.append(("snips", ty, gots.encode(), rep, None))
     for ty in T.SNIPPET_TYPES:
         want = [(x["name"], x["content"].encode("utf-8"), x["priority"]) for x in exp if x["type"] == ty]
         if len(set(w[2] for w in want)) < len(want):
@@ -236,7 +263,7 @@ def run(ctx):
             for name, (data, sproj, _prio) in svc["include"].items():
                 if sproj == "perr" and not data.lstrip().startswith(b"sub "):
                     ctx.violation("snippet %s of type none does not parse as statements" % name, dict(rep, item=name, vcl=data.decode("utf-8", "replace")[:2000]))
-            fragments(ctx, rs, svc, rep, stats, pending)
+            fragments(ctx, rs, svc, rep, stats, pending, mreq, mchk)
 
             def item(kind, n):
                 v = svc["items"].get("Remote.%s:%s" % (kind, n))
@@ -346,6 +373,23 @@ def run(ctx):
             ctx.violation("model driver failed on %s %s: %s" % (kind, name, r), dict(rep, model_request=q[:500]))
             continue
         parts = r.split(" ")
+        if kind == "snips":
+            if r.encode() != data:
+                ctx.violation("snippets of type %s: the generated output differs from scoped / include_of of Model/Snippets.v" % name,
+                              dict(rep, item=name, got=data.decode()[:1500], model=r[:1500]))
+            else:
+                render_agree += 1
+            continue
+        if kind in ("ctype", "longstring"):
+            frag = unhx(parts[0]) if r != "none" else None
+            need = None if frag is None else (b"\t" + frag + b"\n" if kind == "ctype" else b"\tsynthetic " + frag + b";\n")
+            if need is None or need not in data:
+                ctx.violation("response object %r: the %s of the generated vcl_error part differs from Model/Rules.v" % (
+                              name, "content-type statement" if kind == "ctype" else "long string of the body"),
+                              dict(rep, item=name, vcl=data.decode("utf-8", "replace")[:2000], model=(need or b"none").decode("utf-8", "replace")[:2000]))
+            else:
+                render_agree += 1
+            continue
         if unhx(parts[0]) != data:
             ctx.violation("%s %r: the generated VCL differs from the rendering of Model/Escape.v" % (kind, name),
                           dict(rep, item=name, vcl=data.decode("utf-8", "replace")[:3000], model=unhx(parts[0]).decode("utf-8", "replace")[:3000]))
